@@ -1,7 +1,7 @@
 (* C11 -- each UDP packet ID is accepted at most once, in any arrival order.
    Only statements, `exact`, pins and Print Assumptions live here. *)
 From Coq Require Import NArith List Bool.
-From Octo Require Import Model.PacketWindow Proofs.PacketWindowList Generated.Params.
+From Octo Require Import Model.PacketWindow Proofs.PacketWindowList Generated.Params Model.SsUdp Proofs.SsUdpFacts.
 Import ListNotations.
 Open Scope N_scope.
 
@@ -49,6 +49,28 @@ Proof. vm_compute. reflexivity. Qed.
 Example C11_R_reachable : R pw_new [].
 Proof. exact R_init. Qed.
 
+(* client reply decoder: a refused id yields no item and leaves the session unchanged *)
+Definition C11_client_refused_keeps_session := @refused_packet_keeps_session_client.
+(* ... the rest of the run is as if it had not arrived *)
+Definition C11_client_refused_invisible := @refused_packet_invisible_client.
+(* delivered ids are pairwise distinct, any order *)
+Definition C11_client_at_most_once := @client_packet_id_at_most_once.
+(* server association: a refused id is dropped, the task continues, state unchanged *)
+Definition C11_server_refused_keeps_session := @refused_packet_keeps_session_server.
+(* ... invisible to what follows *)
+Definition C11_server_refused_invisible := @refused_packet_invisible_server.
+(* forwarded ids pairwise distinct *)
+Definition C11_server_at_most_once := @server_packet_id_at_most_once.
+(* an unresolvable target does not end the association *)
+Definition C11_server_unresolved_keeps_session := @unresolved_packet_keeps_session.
+
+Check @C11_client_refused_keeps_session.
+Check @C11_client_refused_invisible.
+Check @C11_client_at_most_once.
+Check @C11_server_refused_keeps_session.
+Check @C11_server_refused_invisible.
+Check @C11_server_at_most_once.
+Check @C11_server_unresolved_keeps_session.
 Check (C11_history : forall (ids : list N) (limit : N), snd (pw_run pw_new ids limit) = snd (spec_run [] ids limit)).
 Print Assumptions C11_history.
 Print Assumptions C11_step.
@@ -56,3 +78,10 @@ Print Assumptions C11_limit.
 Print Assumptions C11_refused_invisible.
 Print Assumptions C11_constants_match_source.
 Print Assumptions C11_callsite_limits.
+Print Assumptions C11_client_refused_keeps_session.
+Print Assumptions C11_client_refused_invisible.
+Print Assumptions C11_client_at_most_once.
+Print Assumptions C11_server_refused_keeps_session.
+Print Assumptions C11_server_refused_invisible.
+Print Assumptions C11_server_at_most_once.
+Print Assumptions C11_server_unresolved_keeps_session.
